@@ -56,6 +56,8 @@ type gstate struct {
 	inLib bool
 	// atGate: the goroutine is inside sched.(*Sched).Gate (parked by the harness).
 	atGate bool
+	// inRelease: a frame of (*ChanSemaphore).Release is on the stack.
+	inRelease bool
 }
 
 // blockedInLib: positive evidence that the goroutine is parked on a
@@ -65,8 +67,9 @@ func (g gstate) blockedInLib() bool {
 }
 
 var (
-	libFrame  = []byte("github.com/AdguardTeam/golibs/syncutil.")
-	gateFrame = []byte("verifharness/internal/sched.(*Sched).Gate")
+	libFrame     = []byte("github.com/AdguardTeam/golibs/syncutil.")
+	gateFrame    = []byte("verifharness/internal/sched.(*Sched).Gate")
+	releaseFrame = []byte("syncutil.(*ChanSemaphore).Release")
 )
 
 // goroutineState inspects the all-goroutine stack dump for goroutine id.
@@ -264,7 +267,8 @@ func allGoroutineStates() map[uint64]gstate {
 		if c := bytes.IndexByte(st, ','); c >= 0 {
 			st = st[:c]
 		}
-		out[id] = gstate{found: true, state: string(st), inLib: bytes.Contains(block, libFrame), atGate: bytes.Contains(block, gateFrame)}
+		out[id] = gstate{found: true, state: string(st), inLib: bytes.Contains(block, libFrame), atGate: bytes.Contains(block, gateFrame),
+			inRelease: bytes.Contains(block, releaseFrame)}
 	}
 	return out
 }
